@@ -78,7 +78,15 @@ def rule_R3(chk, repo):
         fi = repo.func(q)
         for label, var, stmts in lr.sweep_positions(fi):
             n += lr.check_loop_body(chk, rid, repo, fi, stmts, var, label)
-    chk.floor(rid, n, 60)
+    # the same evaluation at the call sites inside the sweeps of MPS.orthonormalize / MPS.compress (label sign as stored)
+    from .C01 import mode_branches
+    for q in ('mps.MPS.orthonormalize', 'mps.MPS.compress'):
+        fi = repo.func(q)
+        for mode, stmts in sorted(mode_branches(fi).items()):
+            for s_ in stmts:
+                if isinstance(s_, ast.For):
+                    n += lr.check_loop_body(chk, rid, repo, fi, s_.body, norm(s_.target), f'mode {mode}', psi='self')
+    chk.floor(rid, n, 80)
 
 
 def rule_R4(chk, repo):
